@@ -4,6 +4,31 @@ From V Require Import Gen.Fixnum C01.Model C01.Proofs.
 Open Scope Z_scope.
 Ltac Zify.zify_post_hook ::= Z.div_mod_to_equations.
 (* ---------- shifts *)
+Lemma shiftr_all_bits x n : Z.log2 (Z.abs x) < n -> Z.shiftr x n = if x <? 0 then -1 else 0.
+Proof.
+  intros Hl. assert (0 <= n) by (pose proof (Z.log2_nonneg (Z.abs x)); lia).
+  rewrite Z.shiftr_div_pow2 by lia.
+  assert (Z.abs x < 2 ^ n).
+  { destruct (Z.eq_dec x 0) as [->|Hx]; [apply Z.pow_pos_nonneg; lia|].
+    assert (0 < Z.abs x) as Hp by lia. pose proof (Z.log2_spec (Z.abs x) Hp) as [_ Hu].
+    apply Z.lt_le_trans with (2 ^ Z.succ (Z.log2 (Z.abs x))); auto.
+    apply Z.pow_le_mono_r; lia. }
+  destruct (x <? 0) eqn:Ex.
+  - apply Z.ltb_lt in Ex. symmetry. apply (Z.div_unique_pos x (2 ^ n) (-1) (x + 2 ^ n)); lia.
+  - apply Z.ltb_ge in Ex. apply Z.div_small. lia.
+Qed.
+
+Lemma zshr_eq x n : zshr x n = Z.shiftr x n.
+Proof.
+  unfold zshr. destruct (Z.log2 (Z.abs x) <? n) eqn:E; [|reflexivity].
+  apply Z.ltb_lt in E. symmetry. apply shiftr_all_bits. exact E.
+Qed.
+
+Lemma zshl_eq x n : zshl x n = Z.shiftl x n.
+Proof.
+  unfold zshl. destruct (x =? 0) eqn:E; [|reflexivity].
+  apply Z.eqb_eq in E. subst. rewrite Z.shiftl_0_l. reflexivity.
+Qed.
 Lemma wrap64_id z : i64_min <= z <= i64_max -> wrap64 z = z.
 Proof.
   unfold wrap64, i64_min, i64_max. intros H.
@@ -56,7 +81,7 @@ Lemma shl_pos_exact a c : wf a -> 0 <= c -> good (shl_pos a c) (shl_spec (ival a
 Proof.
   intros Ha Hc. unfold shl_pos, shl_spec.
   assert (0 <= clamp c usize_max) by (apply clamp_nonneg; [auto | unfold usize_max; lia]).
-  destruct a as [x|x]; cbn [ival wf] in *; [|apply good_big; reflexivity].
+  destruct a as [x|x]; cbn [ival wf] in *; rewrite ?zshl_eq; [|apply good_big; reflexivity].
   destruct (checked_signed_shl x (clamp c usize_max)) as [v|] eqn:E.
   - apply checked_signed_shl_exact in E; auto using fix_in_i64. subst. apply good_norm.
   - apply good_big. reflexivity.
@@ -75,7 +100,7 @@ Qed.
 Lemma shr_pos_exact a c : wf a -> 0 <= c -> good (shr_pos a c) (shr_spec (ival a) c).
 Proof.
   intros Ha Hc. unfold shr_pos, shr_spec.
-  destruct a as [x|x]; cbn [ival wf] in *; [|apply good_big; reflexivity].
+  destruct a as [x|x]; cbn [ival wf] in *; rewrite ?zshr_eq; [|apply good_big; reflexivity].
   replace (Z.shiftr x (clamp c usize_max)) with
       (if clamp c u32_max <? 64 then Z.shiftr x (clamp c u32_max) else if x <? 0 then -1 else 0).
   - apply good_norm.
@@ -106,7 +131,7 @@ Qed.
 (* the count clamps are invisible: every representable integer has far fewer than 2^64 bits *)
 Lemma shr_clamp_invisible x c : 0 <= c -> Z.log2 (Z.abs x) < usize_max -> shr_spec x c = Z.shiftr x c.
 Proof.
-  intros Hc Hl. unfold shr_spec, clamp. destruct (c <=? usize_max) eqn:E; [reflexivity|].
+  intros Hc Hl. unfold shr_spec, clamp. rewrite zshr_eq. destruct (c <=? usize_max) eqn:E; [reflexivity|].
   apply Z.leb_gt in E.
   assert (forall n, usize_max <= n -> Z.shiftr x n = if x <? 0 then -1 else 0) as K.
   { intros n Hn. rewrite Z.shiftr_div_pow2 by (unfold usize_max in *; lia).
@@ -123,7 +148,7 @@ Qed.
 
 Lemma shl_clamp_invisible x c : 0 <= c -> c <= usize_max \/ x = 0 -> shl_spec x c = Z.shiftl x c.
 Proof.
-  intros Hc [H|H]; unfold shl_spec, clamp.
+  intros Hc [H|H]; unfold shl_spec, clamp; rewrite zshl_eq.
   - apply Z.leb_le in H. rewrite H. reflexivity.
   - subst. rewrite !Z.shiftl_0_l. reflexivity.
 Qed.
